@@ -104,6 +104,8 @@ TrUpd ==
   /\ obj' = [obj EXCEPT ![Ev.id] = RowCol(@, Ev.rc[1], Ev.rc[2])]
   /\ bits' = [bits EXCEPT ![Ev.id][Ev.rc[1]] = @ \cup {Ev.rc[2]}]
   /\ On("C05") => Sc(obj'[Ev.id]) = Ev.st
+  \* the image of every state (lg_k <= 10) is read back and written again to the same bytes
+  /\ ((On("C11") \/ On("C17")) /\ "rtok" \in DOMAIN Ev) => Ev.rtok
   /\ (On("C12") /\ "sel" \in DOMAIN Ev) => SelOK(obj'[Ev.id], Ev)
   \* raw slots of the pair table (logged after deletions and periodically): every stored pair
   \* must be reachable by its own probe sequence, and the slots hold exactly the surprising pairs
